@@ -21,13 +21,31 @@
      Subtract  = "own"  (subtract cum[d] instead of cum[d-1]): the local index becomes negative and
                         Python's negative list indexing wraps it to exactly the right item.
 
+   HISTORIES.  The length vector is a VARIABLE: between reads the members may change length (Mutate:
+   mazes appended / removed, a member replaced by a filtered copy, to / from empty) and
+   update_self_config() may be called (Update).  The statement is about the CURRENT members: every
+   invariant is evaluated in every state of every history.  What the code keeps between calls is
+   modelled explicitly:
+     cache  the cumulative-length array __getitem__ uses.  CacheCum = "none" is the code (recomputed
+            on every call).  CacheCum = "first_use" (kept from the first indexing until Update) is a
+            broken variant: TLC must reject it (GetIsConcat after a Mutate).
+     mzc    the cached flattened list `.mazes`, built member by member (BuildBegin / BuildMember /
+            BuildEnd), a member may fail while it is read (BuildFault), another reader may come in
+            during the build (Read).  MazesBuild = "atomic" is the code (cached_property: the list is
+            stored only when complete).  MazesBuild = "published" (the cache is assigned first and
+            extended in place) is a broken variant: TLC must reject it (MazesNeverTruncated).
+   `.mazes` read BEFORE a Mutate stays stale in the real code (cached_property; known, not part of
+   the statement): Mutate is therefore only enabled while `.mazes` has not been read, and the
+   harness never reads `.mazes` before a mutation.
+
    The small scope (all length vectors over 0..MaxLen with <= MaxMembers members) is DEFINED here
    (LenVectors) and EMITTED by TLC for the harness (one source of truth). *)
 EXTENDS Naturals, Integers, Sequences, FiniteSets, TLC, Json, IOUtils, SequencesExt
 
-CONSTANTS MaxLen, MaxMembers, SearchArg, Side, Subtract
+CONSTANTS MaxLen, MaxMembers, SearchArg, Side, Subtract, CacheCum, MazesBuild
 
 ASSUME SearchArg \in {"index_plus_1", "index"} /\ Side \in {"left", "right"} /\ Subtract \in {"prev", "own", "none"}
+ASSUME CacheCum \in {"none", "first_use"} /\ MazesBuild \in {"atomic", "published"}
 
 --------------------------------------------------------------------------
 (* (1) the concatenation *)
@@ -58,19 +76,19 @@ ListIndex(n, j) == IF 0 <= j /\ j < n THEN j ELSE IF 0 - n <= j /\ j < 0 THEN n 
 Ok(item) == [res |-> "ok", item |-> item]
 Raise(e) == [res |-> "raise:" \o e, item |-> <<>>]
 
-CodeGetV(lens, i, searchArg, side, subtract) ==
-  LET cum == Cum(lens)
-      n == Len(lens)
+\* the index map for a GIVEN cumulative array (which may be stale) over the current members `lens`
+CodeGetC(lens, i, cum, searchArg, side, subtract) ==
+  LET n == Len(lens)
       v == IF searchArg = "index_plus_1" THEN i + 1 ELSE i
       d == SearchSorted(cum, v, side)                                       \* dataset_idx, 0-based
       subIdx == IF subtract = "prev" THEN d - 1 ELSE d                      \* 0-based entry of cum subtracted
-  IN IF d > 0 /\ subtract # "none" /\ ListIndex(n, subIdx) = 0 - 1 THEN Raise("IndexError")   \* numpy index out of bounds
-     ELSE LET adj == IF d > 0 /\ subtract # "none" THEN i - cum[ListIndex(n, subIdx) + 1] ELSE i
+  IN IF d > 0 /\ subtract # "none" /\ ListIndex(Len(cum), subIdx) = 0 - 1 THEN Raise("IndexError")   \* numpy index out of bounds
+     ELSE LET adj == IF d > 0 /\ subtract # "none" THEN i - cum[ListIndex(Len(cum), subIdx) + 1] ELSE i
               m == ListIndex(n, d)                                          \* self.maze_datasets[d]
           IN IF m = 0 - 1 THEN Raise("IndexError")
              ELSE LET p == ListIndex(lens[m + 1], adj)                      \* member.mazes[adj]
                   IN IF p = 0 - 1 THEN Raise("IndexError") ELSE Ok(<<m, p>>)
-CodeGet(lens, i) == CodeGetV(lens, i, SearchArg, Side, Subtract)
+CodeGetV(lens, i, searchArg, side, subtract) == CodeGetC(lens, i, Cum(lens), searchArg, side, subtract)
 \* the unmutated code, whatever the model constants say (used by the oracle for Layer M)
 CodeGetReal(lens, i) == CodeGetV(lens, i, "index_plus_1", "left", "prev")
 
@@ -78,38 +96,88 @@ CodeGetReal(lens, i) == CodeGetV(lens, i, "index_plus_1", "left", "prev")
 (* the small scope and its emission *)
 LenVectorsOf(maxLen, maxMembers) == UNION {[1..n -> 0..maxLen] : n \in 0..maxMembers}
 LenVectors == LenVectorsOf(MaxLen, MaxMembers)
+\* one-mutation histories: member k (0-based) of vector lens is set to length n # lens[k]
+HistCasesOf(maxLen, maxMembers) ==
+  UNION {{[lens |-> v, k |-> x[1] - 1, n |-> x[2]] : x \in {y \in (1..Len(v)) \X (0..maxLen) : y[2] # v[y[1]]}}
+           : v \in LenVectorsOf(maxLen, maxMembers)}
 ASSUME ("VERIF_EMIT" \in DOMAIN IOEnv) =>
   ndJsonSerialize(IOEnv.VERIF_EMIT, SetToSeq({[lens |-> v, total |-> Total(v)] : v \in LenVectors}))
+ASSUME ("VERIF_EMIT_HIST" \in DOMAIN IOEnv) =>
+  ndJsonSerialize(IOEnv.VERIF_EMIT_HIST, SetToSeq(HistCasesOf(MaxLen, MaxMembers - 1)))
 
 --------------------------------------------------------------------------
-(* (2) the cursor: walks every collection of the scope from its first item to past its last one *)
-VARIABLES lens, i, cur
-vars == <<lens, i, cur>>
+(* (2) the cursor: walks every collection of the scope from its first item to past its last one;
+   every state is "the collection is being indexed at i" *)
+VARIABLES lens, i, cur,     \* current member lengths, index being read, cursor (item at i, <<>> past the end)
+          cache,            \* cumulative array kept by the code between calls (None in the real code)
+          mzc, wb, ret      \* cached `.mazes`; progress of the thread building it (0 = idle, k = about to
+                            \* read member k, Len+1 = all read); last list RETURNED to any reader
+vars == <<lens, i, cur, cache, mzc, wb, ret>>
+None == [has |-> FALSE, v |-> <<>>]
+Some(x) == [has |-> TRUE, v |-> x]
+Published == MazesBuild = "published"
 
 \* least 1-based member >= k that is not empty (0 if there is none)
 NextNonEmpty(ls, k) == LET S == {j \in k..Len(ls) : ls[j] > 0} IN IF S = {} THEN 0 ELSE CHOOSE j \in S : \A j2 \in S : j <= j2
+First(ls) == IF Total(ls) = 0 THEN <<>> ELSE <<NextNonEmpty(ls, 1) - 1, 0>>
 
-Init == /\ lens \in LenVectors
-        /\ i = 0
-        /\ cur = IF Total(lens) = 0 THEN <<>> ELSE <<NextNonEmpty(lens, 1) - 1, 0>>
-Step   == /\ i + 1 < Total(lens) /\ cur[2] + 1 < lens[cur[1] + 1]
-          /\ cur' = <<cur[1], cur[2] + 1>> /\ i' = i + 1 /\ UNCHANGED lens
-Cross  == /\ i + 1 < Total(lens) /\ cur[2] + 1 = lens[cur[1] + 1]
-          /\ cur' = <<NextNonEmpty(lens, cur[1] + 2) - 1, 0>> /\ i' = i + 1 /\ UNCHANGED lens
-Finish == /\ i + 1 = Total(lens)
-          /\ cur' = <<>> /\ i' = i + 1 /\ UNCHANGED lens
-Next == Step \/ Cross \/ Finish
+\* the array the read at the current state works with, and what the code keeps of it afterwards
+EffCum == IF cache.has THEN cache.v ELSE Cum(lens)
+Populate == IF CacheCum = "first_use" /\ ~cache.has THEN Some(Cum(lens)) ELSE cache
+CodeGet(ls, j) == CodeGetC(ls, j, EffCum, SearchArg, Side, Subtract)
+Indexing == wb = 0 /\ ~mzc.has /\ ~ret.has        \* `.mazes` not touched yet
+
+Init == /\ lens \in LenVectors /\ i = 0 /\ cur = First(lens)
+        /\ cache = None /\ mzc = None /\ wb = 0 /\ ret = None
+Step   == /\ Indexing /\ i + 1 < Total(lens) /\ cur[2] + 1 < lens[cur[1] + 1]
+          /\ cur' = <<cur[1], cur[2] + 1>> /\ i' = i + 1 /\ cache' = Populate /\ UNCHANGED <<lens, mzc, wb, ret>>
+Cross  == /\ Indexing /\ i + 1 < Total(lens) /\ cur[2] + 1 = lens[cur[1] + 1]
+          /\ cur' = <<NextNonEmpty(lens, cur[1] + 2) - 1, 0>> /\ i' = i + 1 /\ cache' = Populate /\ UNCHANGED <<lens, mzc, wb, ret>>
+Finish == /\ Indexing /\ i + 1 = Total(lens)
+          /\ cur' = <<>> /\ i' = i + 1 /\ cache' = Populate /\ UNCHANGED <<lens, mzc, wb, ret>>
+\* a member changes length (any kind of edit); indexing restarts on the new collection
+Mutate(k, n) == /\ Indexing /\ n # lens[k]
+                /\ lens' = [lens EXCEPT ![k] = n] /\ i' = 0 /\ cur' = First(lens')
+                /\ cache' = Populate /\ UNCHANGED <<mzc, wb, ret>>
+MutateAny == \E k \in 1..Len(lens), n \in 0..MaxLen : Mutate(k, n)
+\* update_self_config(): whatever the code kept about the member lengths is dropped
+Update == /\ Indexing /\ cache.has /\ cache' = None /\ UNCHANGED <<lens, i, cur, mzc, wb, ret>>
+
+\* ---- `.mazes` (only explored from i = 0: independent of the cursor)
+BuildBegin  == /\ i = 0 /\ wb = 0 /\ ~mzc.has /\ ~ret.has
+               /\ wb' = 1 /\ mzc' = (IF Published THEN Some(<<>>) ELSE mzc) /\ UNCHANGED <<lens, i, cur, cache, ret>>
+BuildMember == /\ wb \in 1..Len(lens)
+               /\ wb' = wb + 1 /\ mzc' = (IF Published THEN Some(mzc.v \o MemberItems(wb - 1, lens[wb])) ELSE mzc)
+               /\ UNCHANGED <<lens, i, cur, cache, ret>>
+BuildFault  == /\ wb \in 1..Len(lens)                          \* member wb raises while it is read
+               /\ wb' = 0 /\ UNCHANGED <<lens, i, cur, cache, mzc, ret>>
+BuildEnd    == /\ wb = Len(lens) + 1
+               /\ wb' = 0 /\ mzc' = (IF Published THEN mzc ELSE Some(Concat(lens))) /\ ret' = mzc'
+               /\ UNCHANGED <<lens, i, cur, cache>>
+\* another reader (second thread during the build, or any later read)
+Read        == /\ i = 0 /\ (mzc.has \/ wb > 0)
+               /\ IF mzc.has THEN ret' = mzc /\ UNCHANGED mzc
+                             ELSE ret' = Some(Concat(lens)) /\ mzc' = ret'      \* builds its own complete list
+               /\ UNCHANGED <<lens, i, cur, cache, wb>>
+Next == Step \/ Cross \/ Finish \/ MutateAny \/ Update \/ BuildBegin \/ BuildMember \/ BuildFault \/ BuildEnd \/ Read
 Spec == Init /\ [][Next]_vars
 
 TypeOK == /\ lens \in LenVectors /\ i \in 0..Total(lens)
           /\ (i < Total(lens)) => (cur[1] \in 0..(Len(lens) - 1) /\ cur[2] \in 0..(lens[cur[1] + 1] - 1))
           /\ (i = Total(lens)) => cur = <<>>
+          /\ wb \in 0..(Len(lens) + 1) /\ cache.has \in BOOLEAN /\ mzc.has \in BOOLEAN /\ ret.has \in BOOLEAN
+          /\ (CacheCum = "none") => cache = None
 \* (2) = (1): the walk visits the concatenation in order
 CursorIsConcat == (i < Total(lens)) => cur = Concat(lens)[i + 1]
 \* (3) = (2): the code's index map returns the very item the cursor stands on, for every valid index
+\* of the CURRENT members, in every state of every history
 GetIsConcat == (i < Total(lens)) => CodeGet(lens, i) = Ok(cur)
 \* just past the end the code raises (recorded by the harness, not part of the statement)
 EndRaises == (i = Total(lens)) => CodeGet(lens, i).res = "raise:IndexError"
+\* a list handed to a reader, or left in the cache by a finished / failed build, is the COMPLETE concatenation
+MazesNeverTruncated == /\ ret.has => ret.v = Concat(lens)
+                       /\ (mzc.has /\ wb = 0) => mzc.v = Concat(lens)
+MazesAgreeWithLen == ret.has => Len(ret.v) = CollLen(lens)
 \* length = sum of the members; all views of the count agree
 ViewsAgree == /\ Len(Concat(lens)) = Total(lens)
               /\ CollLen(lens) = Total(lens) /\ NMazes(lens) = Total(lens) /\ SumSeq(DatasetLengths(lens)) = Total(lens)
